@@ -181,7 +181,7 @@ func solveAll(obs []*Oblig, dir string, timeoutS, jobs, seed int, which []int, w
 	var wg sync.WaitGroup
 	sem := make(chan struct{}, jobs)
 	for i, o := range obs {
-		if o.Result != nil && (o.Result.Backend == "effects-analysis" || o.Result.Backend == "call-graph") {
+		if o.Result != nil && (o.Result.Backend == "effects-analysis" || o.Result.Backend == "call-graph" || o.Result.Backend == "constant") {
 			continue // decided statically
 		}
 		wg.Add(1)
